@@ -179,7 +179,7 @@ func run(env *simrt.Env, sci interface{}) {
 		}))
 	}
 	env.Join(hs...)
-	env.Sleep(time.Second)
+	env.Idle(time.Second)
 	if err := tbf.Close(); err != nil {
 		env.Fail("C15/close-error", "Close: %v", err)
 		return
